@@ -244,7 +244,9 @@ theorem psMapInto_frame' (f : K → K) : ∀ (x o : BTree) (h h' : Heap K),
       · cases e
   | .node ps, .node qs, h, h', e => by
       simp only [psMapInto] at e
-      simpa [BTree.bufs] using psMapIntoParts_frame f ps qs h h' e
+      split at e
+      · simpa [BTree.bufs] using psMapIntoParts_frame f ps qs h h' e
+      · cases e
   | .buf _, .node _, _, _, e => by simp [psMapInto] at e
   | .node _, .buf _, _, _, e => by simp [psMapInto] at e
 theorem psMapIntoParts_frame (f : K → K) : ∀ (ps qs : List BTree) (h h' : Heap K),
@@ -306,6 +308,8 @@ theorem psMapInto_disjoint' (f : K → K) : ∀ (x o : BTree) (h h' : Heap K),
       · cases e
   | .node ps, .node qs, h, h', st, nd, dj, e => by
       simp only [psMapInto] at e
+      split at e
+      case isFalse => cases e
       simp only [BTree.sameTree] at st
       simp only [BTree.bufs] at nd dj
       obtain ⟨xs, h1, h2⟩ := psMapIntoParts_disjoint f ps qs h h' st nd dj e
@@ -362,7 +366,7 @@ theorem psMapInto_inplace' (f : K → K) : ∀ (x : BTree) (h h' : Heap K),
         · cases e
       · cases e
   | .node ps, h, h', nd, e => by
-      simp only [psMapInto] at e
+      simp only [psMapInto, if_true] at e
       simp only [BTree.bufs] at nd
       obtain ⟨xs, h1, h2⟩ := psMapIntoParts_inplace f ps h h' nd e
       exact ⟨.node xs, by simp [BTree.read, h1], by simp [BTree.read, h2, psMap]⟩
@@ -390,6 +394,33 @@ theorem psMapIntoParts_inplace (f : K → K) : ∀ (ps : List BTree) (h h' : Hea
         refine ⟨t :: xs, by simp [readParts, r1, ← c1, r3], ?_⟩
         simp [readParts, c2, r2, r4, psMapParts]
       · cases e
+end
+
+mutual
+theorem psMapInto_sameTree (f : K → K) : ∀ (x o : BTree) (h h' : Heap K),
+    psMapInto f h x o = some h' → x.sameTree o = true
+  | .buf _, .buf _, _, _, _ => by simp [BTree.sameTree]
+  | .node ps, .node qs, h, h', e => by
+      simp only [psMapInto] at e
+      split at e
+      · rename_i hl
+        simpa [BTree.sameTree] using psMapIntoParts_sameTree f ps qs h h' hl e
+      · cases e
+  | .buf _, .node _, _, _, e => by simp [psMapInto] at e
+  | .node _, .buf _, _, _, e => by simp [psMapInto] at e
+theorem psMapIntoParts_sameTree (f : K → K) : ∀ (ps qs : List BTree) (h h' : Heap K),
+    ps.length = qs.length → psMapIntoParts f h ps qs = some h' → sameTreeParts ps qs = true
+  | [], [], _, _, _, _ => by simp [sameTreeParts]
+  | p :: ps, q :: qs, h, h', hl, e => by
+      simp only [psMapIntoParts] at e
+      split at e
+      · rename_i h1 e1
+        simp only [List.length_cons, Nat.add_right_cancel_iff] at hl
+        simp [sameTreeParts, psMapInto_sameTree f p q h h1 e1,
+          psMapIntoParts_sameTree f ps qs h1 h' hl e]
+      · cases e
+  | [], _ :: _, _, _, hl, _ => by simp at hl
+  | _ :: _, [], _, _, hl, _ => by simp at hl
 end
 
 end OdlModel.UfuncValue
